@@ -38,7 +38,10 @@ pub(crate) struct InternalObserver<T> {
     pub(crate) state: Cell<ObserverState>,
     observing: Incr<T>,
     weak_self: Weak<Self>,
+    #[cfg(not(cormacrelf_incremental_rs_verif))]
     on_update_handlers: RefCell<HashMap<SubscriptionToken, OnUpdateHandler<T>>>,
+    #[cfg(cormacrelf_incremental_rs_verif)]
+    on_update_handlers: RefCell<crate::verif_audit::DetHashMap<SubscriptionToken, OnUpdateHandler<T>>>,
     next_subscriber: Cell<SubscriptionToken>,
 }
 
